@@ -73,7 +73,7 @@ fn inline_text(input: &str) -> bool {
 }
 
 fn through_bundle(input: &str, func: fn(&str) -> Cow<'_, str>) -> Vec<String> {
-    let na = || vec!["na".to_string(); 5];
+    let na = || vec!["na".to_string(); 6];
     if !inline_text(input) {
         return na();
     }
@@ -81,8 +81,10 @@ fn through_bundle(input: &str, func: fn(&str) -> Cow<'_, str>) -> Vec<String> {
     // MISSING argument (resolves to an error value, default variant taken); r: text reached through a term reference,
     // directly, and through a message reference; l: a text-only MULTI-LINE pattern (one text element per line)
     let src = format!(
-        "m = {i}\nn = {i}{{ \"|\" }}{i}\ns = {i}{{ $missing ->\n    [a] x\n   *[b] {i}\n}}{i}\n-t = {i}\nr = {{ -t }}{i}{{ m }}\nl =\n    {i}\n    {i}\n",
-        i = input
+        "m = {i}\nn = {i}{{ \"|\" }}{i}\ns = {i}{{ $missing ->\n    [a] x\n   *[b] {i}\n}}{i}\n-t = {i}\nr = {{ -t }}{i}{{ m }}\nl =\n    {i}\n    {i}\n{q}",
+        i = input,
+        // q: a pattern that is exactly ONE string-literal placeable - a literal is not text of the pattern, no transform
+        q = if input.chars().any(|c| c == '"' || c == '\\') { String::new() } else { format!("q = {{ \"{}\" }}\n", input) }
     );
     let res = match FluentResource::try_new(src) {
         Ok(r) => r,
@@ -95,7 +97,7 @@ fn through_bundle(input: &str, func: fn(&str) -> Cow<'_, str>) -> Vec<String> {
         return na();
     }
     let mut out = vec![];
-    for id in ["m", "n", "s", "r", "l"] {
+    for id in ["m", "n", "s", "r", "l", "q"] {
         let o = match bundle.get_message(id).and_then(|m| m.value()) {
             Some(p) => {
                 let mut errs = vec![];
@@ -141,7 +143,7 @@ fn run(payload: &str) -> String {
         fluent_pseudo::transform(&input, fl[0], fl[1])
     };
     let o = through_bundle(&input, func);
-    format!("ok:{};m:{};n:{};s:{};r:{};l:{}", hex_enc(direct.as_bytes()), o[0], o[1], o[2], o[3], o[4])
+    format!("ok:{};m:{};n:{};s:{};r:{};l:{};q:{}", hex_enc(direct.as_bytes()), o[0], o[1], o[2], o[3], o[4], o[5])
 }
 
 fn main() {
